@@ -29,6 +29,18 @@ CHECKS = {
    technique="TLA+ gate property (prop/Gate) and HSMS-SS transducer (impl/HsmsSS) as trace acceptors over recorded probes of live connections; exhaustive condition x entry-point x role grid and every byte cut of pipelined bursts",
    text="Send half: all 8 data-sending entry points x all not-selected conditions (never opened, connecting, connected-not-selected, deselected, between reconnect generations, closed, deselected while the writer is parked under the write lock through the verif gate write.locked) x both roles are probed on live hsmsss connections against a raw peer; TLC judges each probe with prop/Gate (error class, zero data frames at the peer, exactly one drop, Linktest round trip still works; positive control while Selected). Receive half: Select.req (passive) / Select.rsp (active) followed by 1..3 data frames written as one burst cut at every byte offset, and data while not Selected, are judged by the impl/HsmsSS transducer (delivered, never rejected / Reject reason 4 with echoed ids, link stays up).",
    note="Trusted: prop/Gate.tla condition table, the raw peer, loopback TCP. The interleaving 'supervisor between its load and store while the receive path commits' is decided at supervisor level by C05, not end to end."),
+ "C06": dict(cat="model_checking", engine="txn-e2e", design="§3.3, §4 C06",
+   technique="TLC exhaustive check of impl/SendReply (send path + reply registry + routing); recorded concurrent send/reply histories of live connections against a scripted raw peer judged by the TLA+ property module prop/Txn (trace validation)",
+   text="Design level: impl/SendReply.tla (Begin/Write/Recv/Take/Timeout/Released/Cancel critical sections, registry keyed by system bytes, two epochs) is model-checked exhaustively for NeverNilNil, OwnReply, UniqueSb, RegistryClean (and the C09/C20 invariants). Code level: 1..8 concurrent SendDataMessage(W) calls (+ a handler-nested send) run against a raw peer scripted per call -- reply, late reply past T3, no reply, duplicate, Reject.req with each reason, a peer PRIMARY with colliding system bytes, a control response with colliding system bytes, unsolicited secondary, reversed reply order, caller cancel, peer drop/reset, Close, a writer stalled under the write lock (verif gate), auto-linktest sharing the system-bytes space -- and TLC judges every recorded history with prop/Txn: exactly one of the five outcomes, own reply (system bytes, secondary, own token), never (nil,nil), reject reason, T3 no earlier than T3 after the peer saw the primary, each inbound data message to exactly one recipient in arrival order (duplicates may vanish), system bytes unique among all open transactions.",
+   note="Trusted: prop/Txn.tla, the scripted peer, loopback TCP; peer receive time stands in for write time; timing clauses use 8 ms + measured jitter slack. impl/SendReply is bound to the code through these recorded histories (property level), not by per-step hooks. Finding F7 (control response completing a data send with nil,nil) was found here and fixed (4ba5833)."),
+ "C09": dict(cat="model_checking", engine="txn-e2e", design="§4 C09",
+   technique="TLC check of generation isolation on impl/SendReply; generation-ending histories of live connections (peer close/reset, Close, stalled writer with queued async sends, second generation with stale replies) judged by prop/Txn Gen clauses",
+   text="impl/SendReply is model-checked for NoStaleFrame / OwnReply across two epochs. On the code, scenarios end generation 1 at chosen points -- sends awaiting replies, a handler-nested send, a writer parked under the write lock with four fire-and-forget messages queued behind it -- by peer close, peer RST or Close(), then bring up generation 2, replay stale replies carrying generation-1 system bytes on it and make fresh calls. prop/Txn judges: frames of generation-1 calls and queued async messages never appear on the generation-2 socket; a stale reply never completes anything; every waiting send returns closed/T3/ctx promptly (measured from the library's own NotConnected notification); generation 2 is fully working.",
+   note="HSMS-SS transport only (the SECS-I transport's generation handling is exercised by C17/C18 scenarios, not judged here). Promptness bound 150 ms + jitter; T3 = 250 ms."),
+ "C20": dict(cat="model_checking", engine="txn-e2e", design="§4 C20",
+   technique="TLC check of counter/gauge conservation on impl/SendReply; metric getters read at quiescent points of recorded histories compared with the raw peer's independent counts by prop/Txn Met clauses",
+   text="impl/SendReply carries the in-flight gauge and the sent/err/drop counters as ordinary variables; TLC checks InflightConserves and SendMatchesWire in every interleaving. On the code, every scenario of the C06/C09 families reads all metric getters before and after (all calls returned, barrier done) and samples the gauges throughout; prop/Txn judges: in-flight gauge 0 at quiescence and never negative, reconnecting gauge never negative and 0 at quiescent Selected/closed, DataMsgSendCount delta = data frames the peer received, DataMsgRecvCount delta = well-formed data frames the peer sent while Selected, error delta = number of T3 outcomes (reject: none), drop delta = number of refused sends (incl. refusals at the write boundary with the writer parked).",
+   note="Wire-equality clauses are judged in scenario kinds without an abrupt generation end (plain, cancel, stall, b2); the reconnecting gauge's 'positive while a loop runs' clause is judged by C11."),
 }
 
 NA = {
@@ -67,6 +79,8 @@ def main():
                serves_properties=["C05"], kind_free_text="TLC exhaustive + simulation; gated replay on the real supervisor; TLA+ trace acceptor"),
           dict(name="hsmsss-e2e", path="spec/impl/HsmsSS.tla spec/trace/OracleHsmsSS.tla harness/peerkit harness/lab harness/cmd/vh/c08.go",
                serves_properties=["C07", "C08"], kind_free_text="scripted raw HSMS peer over loopback TCP; TLA+ transducer as trace acceptor"),
+          dict(name="txn-e2e", path="spec/impl/SendReply.tla spec/prop/Txn.tla spec/trace/OracleTxn.tla harness/cmd/vh/txn.go",
+               serves_properties=["C06", "C09", "C20"], kind_free_text="TLC exhaustive model + scripted-peer histories judged by a TLA+ property module"),
         ],
         checks=checks, not_applicable=na,
         notes="All checks rebuild the Go harness from /repo's working tree (-tags verif). Exit 2 = inconclusive (never a violation).")
